@@ -60,7 +60,7 @@ def _case(draw):
     used = set()
     n = draw(st.integers(1, 4))
     for _ in range(n):
-        k = draw(st.integers(0, 13))
+        k = draw(st.integers(0, 15))
         ref_key = draw(st.sampled_from([r for r in REFS if r != shadowed_by_param]))
         ref = REFS[ref_key].replace("{v1}", v1_name)
         num = numeric[ref_key]
@@ -97,6 +97,11 @@ def _case(draw):
         elif k == 10:
             items.append(f"({ref}, {ref})")
             used.add(ref_key)
+        elif k in (14, 15):  # the name is captured by an inlined one-line helper function, not by the lambda itself
+            hk = draw(st.sampled_from(["G1", "Ac", "v1"]))
+            if hk != shadowed_by_param or hk != "G1":
+                items.append({"G1": f"hg({p}.n)", "Ac": f"ha({p}.n)", "v1": f"hv({p}.n)"}[hk])
+                used.add(hk)
         elif k == 12:  # the captured value sits in the receiver chain of a parameterized call obj.m[T](...)
             items.append(f"{p}.pick({ref}).get[int](1)")
             used.add(ref_key)
@@ -140,11 +145,17 @@ class A:
     class B:
         c2 = {v["Abc2"]}
 OUT = {{}}
+def hg(q):
+    return (q, G1)
+def ha(q):
+    return (q, A.c)
 def make(ds):
     {case["v1_name"]} = {v["v1"]}
     def set_v1(x):
         nonlocal {case["v1_name"]}
         {case["v1_name"]} = x
+    def hv(q):
+        return (q, {case["v1_name"]})
     def inner():
         v2 = {v["v2"]}
         return ds.Select(lambda {case["p"]}: {body})
